@@ -68,6 +68,21 @@ def plan(tier, seed):
                     "layout": name, "vecs": vecs[chunk:chunk + 27],
                     "depth": depth, "profile": {"x64": True},
                     "part": "ds", "weight": len(vecs[chunk:chunk + 27])})
+  # the same differential with the blocked tensor optimized under jax.pmap
+  # over D devices (statistics are dealt out to the devices and gathered
+  # back; more statistics than devices so that every device holds several)
+  for name, D in ([("4x3/b2", 2), ("6x3/b4", 2)] if tier == "quick" else
+                  [(n, D) for n in ("4x3/b2", "5x3/b2", "6x3/b4", "4x4/b2")
+                   for D in (2, 4)]):
+    shape, bs = DS_LAYOUTS[name]
+    nb = len(block_slices(shape, bs))
+    vecs = list(itertools.product(range(3), repeat=nb))
+    for chunk in range(0, len(vecs), 27):
+      tasks.append({"name": "ds_pmap%d/%s/v%d" % (D, name, chunk),
+                    "kind": "ds", "pmap": D, "layout": name,
+                    "vecs": vecs[chunk:chunk + 27], "depth": depth,
+                    "profile": {"x64": True, "devices": D},
+                    "part": "ds_pmap", "weight": 3 * len(vecs[chunk:chunk + 27])})
   for name in tf_l:
     shape, bs = TF_LAYOUTS[name]
     nb = len(block_slices(shape, bs))
@@ -81,7 +96,8 @@ def plan(tier, seed):
       "tasks": tasks,
       "rule": "block layouts %s (distributed_shampoo) and %s (tearfree) x "
               "every per-block scale vector over {2^-20,1,2^20} x 3 "
-              "companions x grafting {NONE, SGD} x all histories over "
+              "companions x grafting {NONE, SGD} x {jit, pmap over 2 (4) "
+              "devices against the separate-leaf jit run} x all histories over "
               "{gA,gB} up to depth %d; state = (layout, scale vector, "
               "history); non-trivial = scale vector with at least two "
               "different scales" % (ds_l, tf_l, depth),
@@ -118,7 +134,7 @@ def run_task(task):
   cbase = {c: {e: (G.alphabet(tuple(sh), [e], (0, bs))[e] * sc).astype(dt)
                for e in ("gA", "gB")} for c, (sh, sc) in comps.items()}
 
-  def make(graft, shapes):
+  def make(graft, shapes, pm=False):
     params_np = {k: G.dyadic(tuple(s), "P" + k).astype(dt)
                  for k, s in shapes.items()}
     params = {k: jnp.asarray(v) for k, v in params_np.items()}
@@ -134,17 +150,40 @@ def run_task(task):
           graft_type={"none": 0, "sgd": 1}[graft], block_size=bs, beta1=0.0,
           beta2=0.5, nesterov=False, learning_rate=1.0,
           start_preconditioning_step=0,
-          best_effort_shape_interpretation=False), "rep")
+          best_effort_shape_interpretation=False),
+                         "pmap" if pm else "rep")
     upd = jax.jit(opt.update)
     return opt, upd, params
+
+  D = task.get("pmap", 0)
+
+  def make_pmap(graft, shapes):
+    opt, _, params = make(graft, shapes, pm=True)
+    devs = jax.devices()[:D]
+    assert len(devs) == D, "forced host devices missing"
+    rep = lambda t: jax.tree_util.tree_map(
+        lambda x: jnp.stack([jnp.asarray(x)] * D), t)
+    pupd = jax.pmap(opt.update, axis_name="batch", devices=devs)
+    prep = rep(params)
+
+    class Opt:
+      @staticmethod
+      def init(p):
+        return rep(opt.init(p))
+
+    def upd(g, st, _):
+      u, s2 = pupd(rep(g), st, prep)
+      return {k: v[0] for k, v in u.items()}, s2
+    return Opt, upd, params
 
   blk_shapes = {"b%02d" % i: list(base["gA"][sl].shape)
                 for i, sl in enumerate(slices)}
   runs = {}
+  mk = make_pmap if D else make
   for graft in ("none", "sgd"):
-    runs[("a", graft)] = make(graft, {"w": shape})
+    runs[("a", graft)] = mk(graft, {"w": shape})
     for c, (sh, _) in comps.items():
-      runs[("c" + c, graft)] = make(graft, {"w": shape, "z": sh})
+      runs[("c" + c, graft)] = mk(graft, {"w": shape, "z": sh})
   runs[("b", "none")] = make("none", blk_shapes)
   hists = histories(task["depth"])
   sigbase = "C08|" + task["name"]
@@ -167,7 +206,7 @@ def run_task(task):
     gw = {e: (base[e] * S).astype(dt) for e in ("gA", "gB")}
     nontriv = len(set(vec)) > 1
     case0 = {"optimizer": "tearfree" if tf else "distributed_shampoo",
-             "layout": task["layout"],
+             "layout": task["layout"], "pmap_devices": D,
              "block_scales": [SCALES[i] for i in vec]}
     a_none = play(("a", "none"), lambda e: {"w": gw[e]})
     a_sgd = play(("a", "sgd"), lambda e: {"w": gw[e]})
